@@ -666,6 +666,87 @@ theorem pullAttempt_eq (g : G) (keys : List Nat) (ps : List Prim) : (pullAttempt
     exact restoreSaved_framed g _ keys hs hf
   · rfl
 
+
+/-! ## calls -/
+
+theorem callConn_inv : ∀ (items : List CallItem) (g : G), Inv g → Inv (callConn g items).1 := by
+  intro items
+  induction items with
+  | nil => intro g h; exact h
+  | cons it rest ih =>
+    intro g h
+    cases it with
+    | chan a b =>
+      unfold callConn
+      have h1 := connect1_inv g a b h
+      split
+      · rename_i g' heq
+        rw [heq] at h1; exact ih g' h1
+      · rename_i g' e _ heq
+        rw [heq] at h1; exact h1
+    | valOk => unfold callConn; exact ih g h
+    | valBad => unfold callConn; exact h
+
+theorem connect1_suffix (g : G) (a b x : Nat) : ∃ pre, (connect1 g a b).1.conns x = pre ++ g.conns x := by
+  unfold connect1
+  split
+  · exact ⟨[], rfl⟩
+  · split
+    · split
+      · by_cases hxb : x = b
+        · subst hxb
+          by_cases hxa : x = a
+          · subst hxa; exact ⟨[x], by simp [updF]⟩
+          · exact ⟨[a], by simp [updF]⟩
+        · by_cases hxa : x = a
+          · subst hxa; exact ⟨[b], by simp [updF, hxb]⟩
+          · exact ⟨[], by simp [updF, hxa, hxb]⟩
+      · exact ⟨[], rfl⟩
+    · exact ⟨[], rfl⟩
+
+/-- a call — accepted or refused half-way — never removes or re-orders anything: every list keeps what it had, as
+its tail -/
+theorem callConn_suffix : ∀ (items : List CallItem) (g : G) (x : Nat),
+    ∃ pre, (callConn g items).1.conns x = pre ++ g.conns x := by
+  intro items
+  induction items with
+  | nil => intro g x; exact ⟨[], rfl⟩
+  | cons it rest ih =>
+    intro g x
+    cases it with
+    | chan a b =>
+      unfold callConn
+      obtain ⟨p1, h1⟩ := connect1_suffix g a b x
+      split
+      · rename_i g' heq
+        rw [heq] at h1
+        obtain ⟨p2, h2⟩ := ih g' x
+        exact ⟨p2 ++ p1, by rw [h2, h1, List.append_assoc]⟩
+      · rename_i g' e _ heq
+        rw [heq] at h1
+        exact ⟨p1, h1⟩
+    | valOk => unfold callConn; exact ih g x
+    | valBad => unfold callConn; exact ⟨[], rfl⟩
+
+/-- a call whose channel keywords only restate connections that exist leaves the graph exactly as it is,
+whatever it answers -/
+theorem callConn_restated : ∀ (items : List CallItem) (g : G),
+    (∀ a b, CallItem.chan a b ∈ items → b ∈ g.conns a) → (callConn g items).1 = g := by
+  intro items
+  induction items with
+  | nil => intro g _; rfl
+  | cons it rest ih =>
+    intro g hall
+    cases it with
+    | chan a b =>
+      unfold callConn
+      have hb : b ∈ g.conns a := hall a b (by simp)
+      have : connect1 g a b = (g, .ok) := by simp [connect1, hb]
+      rw [this]
+      exact ih g (fun a' b' hm => hall a' b' (by simp [hm]))
+    | valOk => unfold callConn; exact ih g (fun a' b' hm => hall a' b' (by simp [hm]))
+    | valBad => unfold callConn; rfl
+
 theorem step_inv (g : G) (op : Op) (h : Inv g) : Inv (step g op).1 := by
   cases op with
   | connect a bs => exact connect_inv g a bs h
@@ -680,6 +761,11 @@ theorem step_inv (g : G) (op : Op) (h : Inv g) : Inv (step g op).1 := by
   | restoreInsert a b => exact restoreInsert_inv g a b h
   | moveChan o n => exact moveChan_inv g o n h
   | pullAttempt keys ps => simp only [step]; rw [pullAttempt_eq]; exact h
+  | call known items =>
+    simp only [step, callOp]
+    split
+    · exact callConn_inv items g h
+    · exact h
 
 theorem run_inv (g : G) (ops : List Op) (h : Inv g) : Inv (run g ops) := by
   unfold run
